@@ -2,6 +2,7 @@ package main
 
 import (
 	"go/token"
+	"go/types"
 	"strings"
 
 	"golang.org/x/tools/go/ssa"
@@ -228,8 +229,21 @@ func ruleDoUniqueIndex(c *Ctx, r *R) {
 				return v
 			}
 		}
+		var claimDelta int64 // index = AddInt32(&x, 1) + claimDelta (claimIndex: `atomic.AddInt32(claimed, 1) - 1`)
 		isClaimLeaf := func(lf leafVal) bool {
-			ac, ok := stripConv(lf.v).(*ssa.Call)
+			cv := stripConv(lf.v)
+			if bin, isBin := cv.(*ssa.BinOp); isBin && (bin.Op == token.SUB || bin.Op == token.ADD) {
+				if k, isK := bin.Y.(*ssa.Const); isK && k.Value != nil {
+					if _, isCall := stripConv(bin.X).(*ssa.Call); isCall {
+						claimDelta = k.Int64()
+						if bin.Op == token.SUB {
+							claimDelta = -claimDelta
+						}
+						cv = stripConv(bin.X)
+					}
+				}
+			}
+			ac, ok := cv.(*ssa.Call)
 			if !ok {
 				return false
 			}
@@ -248,7 +262,7 @@ func ruleDoUniqueIndex(c *Ctx, r *R) {
 				}
 			}
 			ap := addrProv(ac.Call.Args[0], provEnv{chain: chain})
-			if al, ok := ap.root.(*ssa.Alloc); ok && rootFn(al.Parent()) == rootFn(fn) {
+			if al, ok := ap.root.(*ssa.Alloc); ok && (rootFn(al.Parent()) == rootFn(fn) || rootFn(al.Parent()) == rootFn(im.api)) {
 				counter = &ap
 				return true
 			}
@@ -266,7 +280,7 @@ func ruleDoUniqueIndex(c *Ctx, r *R) {
 			}
 			return ls, true
 		}
-		for _, g := range bi.spawned {
+		for _, g := range effectiveWorkers(im, bi.spawned) {
 			nf := 0
 			for _, di := range deepInstrs(g, 2) {
 				call, ok := di.in.(*ssa.Call)
@@ -335,28 +349,33 @@ func ruleDoUniqueIndex(c *Ctx, r *R) {
 		okInit := false
 		if counter != nil {
 			if cell, ok := counter.root.(*ssa.Alloc); ok {
-				if len(counter.fields) == 0 {
-					for _, st := range storesTo(cell) {
-						if rootFn(st.Parent()) == rootFn(fn) && isConstInt(st.Val, -1) {
-							okInit = true
+				// the initial value: the constant stored by the owning function (none = the zero value); the first claim
+				// must yield index 0: initial + 1 + claimDelta == 0
+				var init int64
+				known, nStores := true, 0
+				for _, f := range withAnon(rootFn(cell.Parent())) {
+					instrs(f, func(_ *ssa.BasicBlock, _ int, in ssa.Instruction) {
+						st, ok := in.(*ssa.Store)
+						if !ok {
+							return
 						}
-					}
-				} else {
-					// a field of a local struct: initialised by the composite literal
-					for _, f := range withAnon(rootFn(fn)) {
-						instrs(f, func(_ *ssa.BasicBlock, _ int, in ssa.Instruction) {
-							if st, ok := in.(*ssa.Store); ok && isConstInt(st.Val, -1) {
-								ap := addrProv(st.Addr, provEnv{})
-								if ap.root == counter.root && strings.Join(ap.fields, ".") == strings.Join(counter.fields, ".") {
-									okInit = true
-								}
-							}
-						})
-					}
+						ap := addrProv(st.Addr, provEnv{})
+						if ap.root != counter.root || strings.Join(ap.fields, ".") != strings.Join(counter.fields, ".") {
+							return
+						}
+						nStores++
+						if k, isK := resolveVal(st.Val).(*ssa.Const); isK && k.Value != nil {
+							init = k.Int64()
+						} else {
+							known = false
+						}
+					})
 				}
+				_ = cell
+				okInit = known && nStores <= 1 && init+1+claimDelta == 0
 			}
 		}
-		r.ok(okInit, name+"|x-starts-at-minus-one", fn.Pos(), "the shared counter must start at -1 so the first AddInt32(&x,1) yields index 0")
+		r.ok(okInit, name+"|x-starts-at-minus-one", fn.Pos(), "the shared counter must start so that the first claim yields index 0 (-1 for `AddInt32(&x, 1)`, 0 for `AddInt32(&x, 1) - 1`)")
 		// sequential path: f(i) with i the induction variable 0..n-1, reached only under parallelism == 1 (in the API function
 		// or in the helper it delegates the serial case to)
 		okSeq := false
@@ -889,4 +908,33 @@ func spawnLoopBound(fn *ssa.Function, site ssa.Instruction) (ssa.Value, *ssa.Bas
 		}
 	}
 	return nil, nil
+}
+
+// effectiveWorkers: the function literals that are the workers' bodies. When the spawn loop lives in a helper that is handed
+// the body as a func parameter (fanOut(k, body): `go func() { defer wg.Done(); body() }()`), the goroutine literal of the
+// helper only calls that parameter; the worker to look at is the literal the API function passed in.
+func effectiveWorkers(im doImpl, spawned []*ssa.Function) []*ssa.Function {
+	var out []*ssa.Function
+	for _, g := range spawned {
+		repl := g
+		instrs(g, func(_ *ssa.BasicBlock, _ int, in ssa.Instruction) {
+			call, ok := in.(*ssa.Call)
+			if !ok || call.Call.IsInvoke() {
+				return
+			}
+			pv := valueProv(call.Call.Value, provEnv{})
+			p, isP := pv.root.(*ssa.Parameter)
+			if !isP || len(pv.fields) != 0 || p.Parent() != im.fn || len(im.chain) == 0 {
+				return
+			}
+			if _, isSig := p.Type().Underlying().(*types.Signature); !isSig {
+				return
+			}
+			if lit := resolveFuncValue(argOf(p, im.chain), 0); lit != nil {
+				repl = lit
+			}
+		})
+		out = append(out, repl)
+	}
+	return out
 }
